@@ -1,26 +1,25 @@
-"""Extra module Launcher: life cycle of the node processes inside one launcher step (esrally/mechanic/launcher.py) and the wait for
-the REST layer (esrally/client/factory.py: wait_for_rest_layer).  Property C12 treats this step as opaque; here it is opened up.
-Specified (specs/Launcher): Launcher.tla = ProcessLauncher.start/stop as the sequence of system calls (spawn daemon, poll pid file,
-sleep, telemetry attach / psutil look-up, detach, SIGTERM, wait(10), SIGKILL, detach, store metrics) against a small operating
-system (process absent/starting/running/terminating/killed/gone, pid file absent/empty/own/stale/garbage, pid reuse, signals that
-take effect after a nondeterministic delay); RestLayer.tla = the retry loop of wait_for_rest_layer per error class; DockerLaunch.tla =
-DockerLauncher's compose up / ps / health polling / compose down.  Invariants (TLC + L1 on every recorded run of the REAL code):
-start returns only pids written by the daemon it spawned (StartConsistent); <= 1 SIGTERM and <= 1 SIGKILL per node, SIGKILL only after
-SIGTERM + the 10 s grace period (SignalDiscipline, KillAfterGrace); nodes reported as stopped are gone, the others were reported in
-the log (NoSurvivor, FailureReported); stop handles every node (StopCoversAll); telemetry hooks ordered, detached once (TelemetryOrder,
-TelemetryComplete); at most max_attempts health calls, one sleep(3) between two calls, True on the first success, wrong scheme =
-SystemSetupError (AtMostMax, SleepBetween, TrueOnFirstSuccess, WrongScheme).  The code as it is violates five of them in corner cases;
-each is pinned behind a model switch (RemoveStalePid, WaitAfterKill, ContinuePastFailure, DetachGone, ExactAttempts; FALSE = /repo)
-with a self-test cfg, so L2 (step conformance) has no drift on /repo while the L1 lines name the corner cases.
+"""Extra module Launcher: what happens INSIDE the launcher step that property C12 treats as opaque (esrally/mechanic/launcher.py) and
+in the wait for the REST layer (esrally/client/factory.py).  Specified in specs/Launcher: Launcher.tla = ProcessLauncher.start/stop
+as the sequence of system calls against a small operating system (process absent/starting/running/terminating/killed/gone, pid file
+absent/empty/own/stale/garbage, pid reuse, signals that take effect late); RestLayer.tla = retry loop of wait_for_rest_layer per
+error class; DockerLaunch.tla = compose up / ps / health polling / compose down.  Invariants (TLC + L1 on every recorded run of the
+REAL code): StartConsistent (start returns only pids written by the daemon it spawned), SignalDiscipline + KillAfterGrace (<= 1
+SIGTERM/SIGKILL per node, SIGKILL only after SIGTERM + 10 s), NoSurvivor + FailureReported (nodes reported stopped are gone, the
+others are in the log), StopCoversAll, TelemetryOrder + TelemetryComplete, AtMostMax / SleepBetween / TrueOnFirstSuccess /
+WrongScheme / RetriesUsedUp / FatalRaised (REST), StartHealthy / PollBound / DownEveryNode / DownChecked (docker).  /repo does not
+meet six strong forms in corner cases: each is pinned behind a model switch (RemoveStalePid, WaitAfterKill, ContinuePastFailure,
+DetachGone, ExactAttempts, CheckDown; FALSE = /repo) with a self-test cfg and shown as a note; the weaker form /repo does meet is L1.
 
-Leg M   : TLC on Launcher.{quick,hostile,repaired}.cfg (+ thorough), 6 self-tests, RestLayer.quick.cfg (+ exact variant, self-test),
-          DockerLaunch.quick.cfg.
-Leg S2C : TLC -simulate behaviours of Launcher.tla -> scenario + environment schedule (when the daemon writes its pid file, dies,
-          ignores SIGTERM, pids get reused ...) -> REAL ProcessLauncher.start/stop with fakes for os.geteuid, subprocess.Popen, open()
-          of the pid file (a real file in a scratch install dir), time.sleep/perf_counter (virtual clock), psutil (launcher + sysstats),
-          a recording telemetry device next to the real internal ones; RestLayer/DockerLaunch: every terminal state of the model = one case.
-Leg C2S : every recorded run (S2C + seeded random scenarios with the real time-outs 60 s / 10 s / 40 attempts / 600 s) validated by TLC
-          against TraceLauncher.tla / TraceRestLayer.tla / TraceDockerLaunch.tla (L1 + L2).
+Leg M   : TLC on Launcher.{quick,hostile,repaired}.cfg (+ thorough, repaired_reuse), 6 self-tests; RestLayer.{quick,exact}.cfg + self-test;
+          DockerLaunch.{quick,repaired}.cfg + 2 self-tests.
+Leg S2C : TLC -simulate behaviours -> scenario + environment schedule (when the daemon writes its pid file, dies, ignores SIGTERM,
+          a pid gets reused, a container turns healthy ...) -> REAL ProcessLauncher / DockerLauncher with fakes for os.geteuid (the
+          sandbox is root), subprocess.Popen, open() of the pid file (a real file in a scratch install dir), time.sleep/perf_counter
+          (virtual clock), psutil (launcher + sysstats), esrally.utils.process, a recording telemetry device next to the real ones;
+          REST: every terminal state of RestLayer.quick.cfg = one case for the REAL wait_for_rest_layer with a scripted client.
+Leg C2S : every recorded run (S2C + seeded random scenarios, some with the real time-outs 60 s / 10 s / 40 attempts / 600 s) validated
+          by TLC against TraceLauncher.tla / TraceRestLayer.tla / TraceDockerLaunch.tla (L1 + L2); runs that are not steps of the model
+          of the code as it is are re-validated with one switch flipped, to tell a repaired tree from a broken one.
 """
 import builtins
 import collections
@@ -44,9 +43,9 @@ DEFAULT_GR = 20  # es.wait(10) in ticks of 0.5 s
 OWN_PID0 = 41000
 STALE_PID0 = 52000
 
-# L1 clauses the code as it is violates in corner cases: clause -> (model switch that repairs it, what happens)
 MAX_VIOLATIONS_PER_KIND = 20  # Violation objects kept per set of clauses (all are counted in the statistics)
 CASE_KEYS = ("scn", "pid0", "q0", "sched", "spawn", "seed", "p_env", "p_rc", "w_create", "w_exit", "w_crash", "w_reuse")
+# strong L1 clauses which the code as it is does not meet in corner cases: clause -> (model switch that repairs it, what happens)
 PINNED = {
     "StartConsistent": ("RemoveStalePid", "a pid file left behind by an earlier (killed) node is read at once: start() returns the pid of another process"),
     "NoSurvivor": ("WaitAfterKill / RemoveStalePid", "a node is reported as stopped although its process is still alive (no wait after SIGKILL, or the wrong pid was signalled)"),
@@ -95,6 +94,101 @@ def _explain_drift(out, module, cfg, items, variants, label):
         if not v.l2:
             out.drift.append("%s: the %d runs that are not steps of the model of the code as it is are all accepted with %s = TRUE: this behaviour seems to have been repaired; switch the cfgs of specs/Launcher over" % (label, len(items), switch))
             return
+
+
+_PREFETCHED = {}
+
+
+def _job_table(ctx):
+    """Every TLC run of the extra that does not depend on an execution of the real code: (module, cfg) -> keyword arguments.
+    run() starts them four at a time; the parts fetch the results with _tlc() in a fixed order."""
+    q = ctx.quick
+    t = {}
+
+    def mc(module, cfg, timeout, workers):
+        t[(module, cfg)] = {"timeout": timeout, "allow_violation": True, "workers": workers}
+
+    for c in ("Launcher.quick.cfg", "Launcher.hostile.cfg", "Launcher.repaired.cfg"):
+        mc("MC_Launcher", c, 200, 2)
+    if not q:
+        mc("MC_Launcher", "Launcher.thorough.cfg", 1200, 6)
+        mc("MC_Launcher", "Launcher.repaired_reuse.cfg", 400, 2)
+        mc("MC_RestLayer", "RestLayer.thorough.cfg", 300, 2)
+    for c in ("stale", "kill", "abort", "detach", "reuse", "leak"):
+        mc("MC_Launcher", "Launcher.selftest.%s.cfg" % c, 200, 1)
+    mc("MC_RestLayer", "RestLayer.exact.cfg", 200, 1)
+    mc("MC_RestLayer", "RestLayer.selftest.cfg", 200, 1)
+    t[("MC_RestLayer", "RestLayer.quick.cfg")] = {"timeout": 200, "allow_violation": True, "workers": 1, "dump": True}
+    mc("MC_DockerLaunch", "DockerLaunch.quick.cfg" if q else "DockerLaunch.thorough.cfg", 300, 1)
+    for c in ("repaired", "selftest.down", "selftest.leak"):
+        mc("MC_DockerLaunch", "DockerLaunch.%s.cfg" % c, 200, 1)
+    for c in ("Launcher.sim.cfg", "Launcher.simok.cfg"):
+        t[("MC_Launcher", c)] = {"timeout": 300, "workers": 1, "sim": (250 if q else 3000, 80), "seed": ctx.seed + 5}
+    for c in ("DockerLaunch.sim.cfg", "DockerLaunch.simok.cfg"):
+        t[("MC_DockerLaunch", c)] = {"timeout": 300, "workers": 1, "sim": (100 if q else 1500, 70), "seed": ctx.seed + 9}
+    return t
+
+
+def _run_job(module, cfg, kw):
+    kw = dict(kw)
+    wd = tlc.prepare_workdir(SPEC, "xl")
+    sim = kw.pop("sim", None)
+    if sim:
+        simdir = os.path.join(wd, "sim")
+        os.makedirs(simdir)
+        kw["simulate"] = {"num": sim[0], "file": os.path.join(simdir, "b")}
+        kw["depth"] = sim[1]
+    if kw.pop("dump", False):
+        kw["dump"] = os.path.join(wd, "states")
+    res = tlc.run_tlc(wd, module, cfg, **kw)
+    res.wd = wd
+    return res
+
+
+def _prefetch(ctx, par=4):
+    from concurrent.futures import ThreadPoolExecutor
+
+    tlc.scratch_root()
+    jobs = sorted(_job_table(ctx).items())
+
+    def one(job):
+        (module, cfg), kw = job
+        try:
+            return _run_job(module, cfg, kw)
+        except Exception as ex:  # pylint: disable=broad-except
+            return ex
+
+    with ThreadPoolExecutor(par) as ex:
+        for (key, _kw), res in zip(jobs, ex.map(one, jobs)):
+            _PREFETCHED[key] = res
+
+
+def _tlc(ctx, module, cfg):
+    """result of the TLC run (module, cfg) of the job table: prefetched by run(), otherwise run now"""
+    res = _PREFETCHED.pop((module, cfg), None)
+    if res is None:
+        res = _run_job(module, cfg, _job_table(ctx)[(module, cfg)])
+    if isinstance(res, Exception):
+        raise res
+    return res
+
+
+def _validate_pending(pending, par=3):
+    """pending: [(validate, judge)]: the TLC trace validations run three at a time, the verdicts are judged in the given order"""
+    from concurrent.futures import ThreadPoolExecutor
+
+    def one(vj):
+        try:
+            return vj[0]()
+        except Exception as ex:  # pylint: disable=broad-except
+            return ex
+
+    with ThreadPoolExecutor(par) as ex:
+        results = list(ex.map(one, pending))
+    for (_v, judge), res in zip(pending, results):
+        if isinstance(res, Exception):
+            raise res
+        judge(res)
 
 
 def _snap(st):
@@ -334,6 +428,7 @@ class LWorld:
             fh.write(content)
 
     read_pid = None
+    pending_remove = None
 
 
 def _node_index(name):
@@ -395,6 +490,19 @@ def execute_proc(case):
         def geteuid():
             return 0 if scn["root"] else 1000
 
+        @staticmethod
+        def remove(path, *a, **kw):
+            # not done by the code as it is; a repaired launcher that clears the pid file before spawning the daemon is understood
+            if os.path.basename(str(path)) == "pid":
+                i = cwd_node()
+                if w.st["pidf"][i - 1] == "absent":
+                    raise FileNotFoundError(path)
+                w.pending_remove = i  # takes effect with the next launcher event (the model removes the file when it spawns the daemon)
+                return None
+            return os.remove(path, *a, **kw)
+
+        unlink = remove
+
     class FakePopen:
         def __init__(self_, args, stdout=None, stderr=None, env=None, start_new_session=False, **kw):
             i = cwd_node()
@@ -406,6 +514,9 @@ def execute_proc(case):
                 w.anomalies.append("no ES_JAVA_OPTS in the daemon's environment")
             if w.st["proc"][i - 1] != "absent":
                 w.anomalies.append("daemon of node %d spawned twice" % i)
+            if w.pending_remove == i:
+                w.st["pidf"][i - 1] = "absent"
+            w.pending_remove = None
             if w.sched is not None:
                 r = w.spawn_rc.get(str(i), "ok")
             else:
@@ -612,11 +723,13 @@ def execute_proc(case):
 
     class WarnHandler(logging.Handler):
         def emit(self_, record):
-            if record.levelno >= logging.WARNING and str(record.msg).startswith("No process found with PID"):
-                try:
-                    w.warned(_node_index(record.args[1]))
-                except Exception:  # pylint: disable=broad-except
-                    w.anomalies.append("warning without node: %r" % (record.args,))
+            # "No process found with PID [%s] for node [%s]." (or whatever else a launcher reports about a node it could not stop)
+            if record.levelno >= logging.WARNING and w.st["sres"] == "ok":
+                names = [a for a in (record.args or ()) if isinstance(a, str) and a.startswith("rally-node-")]
+                if names:
+                    w.warned(_node_index(names[0]))
+                else:
+                    w.anomalies.append("warning without node: %r %r" % (record.msg, record.args))
 
     cfg = config.Config()
     S = config.Scope.application
@@ -722,11 +835,9 @@ def execute_proc(case):
 # ---------------------------------------------------------------------------------------------------
 # case sources
 # ---------------------------------------------------------------------------------------------------
-def proc_cases_from_tlc(ctx, out, cfg, num, depth):
-    wd = tlc.prepare_workdir(SPEC, "xlsim")
-    simdir = os.path.join(wd, "sim")
-    os.makedirs(simdir)
-    res = tlc.run_tlc(wd, "MC_Launcher", cfg, workers=1, simulate={"num": num, "file": os.path.join(simdir, "b")}, depth=depth, seed=ctx.seed + 5, timeout=300)
+def proc_cases_from_tlc(ctx, out, cfg):
+    res = _tlc(ctx, "MC_Launcher", cfg)
+    simdir = os.path.join(res.wd, "sim")
     if not res.ok:
         raise tlc.MachineryError("simulation reported a model violation: %s" % res.out[-2000:])
     out.add_tlc(res)
@@ -813,7 +924,7 @@ def _proc_signature(clauses, case, item):
     }
 
 
-def run_proc_cases(cases, out, label, stats):
+def run_proc_cases(cases, out, label, stats, pending):
     items, index = [], {}
     for ci, case in enumerate(cases):
         try:
@@ -850,7 +961,11 @@ def run_proc_cases(cases, out, label, stats):
             stats["s2c_followed"] += mine == case["model_events"] and info["skipped"] == 0
     if not items:
         raise tlc.MachineryError("no runs for %s" % label)
-    verdicts = tracecheck.validate(SPEC, "TraceLauncher", "TraceLauncher.cfg", items, name="xltrace", chunk=700, timeout=600)
+    pending.append((lambda: tracecheck.validate(SPEC, "TraceLauncher", "TraceLauncher.cfg", items, name="xltrace", chunk=700, timeout=600), lambda verdicts: _judge_proc(out, stats, items, index, verdicts, label)))
+    return items
+
+
+def _judge_proc(out, stats, items, index, verdicts, label):
     out.states += verdicts.n_events
     out.transitions += verdicts.n_events
     out.traces_validated += len(items) - len(set(verdicts.l2) | {tid for tid, fails in verdicts.l1.items() if any(c not in PINNED for _, cl in fails for c in cl)})
@@ -865,17 +980,15 @@ def run_proc_cases(cases, out, label, stats):
         ln = lines[0]
         what = {k: item["events"][ln - 1][k] for k in ("a", "n", "r")} if 1 <= ln <= len(item["events"]) else ("initial state" if ln == 0 else "end of run")
         out.drift.append("run %s: event %d (%s) is not a step of Launcher.tla (code as it is); case %s" % (tid, ln, what, {k: case.get(k) for k in ("scn", "pid0", "q0", "seed")}))
-    return items
 
 
-def run_process_part(ctx, out):
+def run_process_part(ctx, out, pending):
     # ---- Leg M
-    todo = [("Launcher.quick.cfg", 120), ("Launcher.hostile.cfg", 120), ("Launcher.repaired.cfg", 120)]
+    todo = ["Launcher.quick.cfg", "Launcher.hostile.cfg", "Launcher.repaired.cfg"]
     if not ctx.quick:
-        todo += [("Launcher.thorough.cfg", 900), ("Launcher.repaired_reuse.cfg", 300)]
-    for c, to in todo:
-        wd = tlc.prepare_workdir(SPEC, "xlmc")
-        res = tlc.run_tlc(wd, "MC_Launcher", c, timeout=to, allow_violation=True, workers=4 if ctx.quick else 8)
+        todo += ["Launcher.thorough.cfg", "Launcher.repaired_reuse.cfg"]
+    for c in todo:
+        res = _tlc(ctx, "MC_Launcher", c)
         out.add_tlc(res)
         if not res.ok:
             raise tlc.MachineryError("model violates %s in %s: %s" % (res.invariant_violated or res.property_violated, c, res.out[-1500:]))
@@ -888,8 +1001,7 @@ def run_process_part(ctx, out):
         ("Launcher.selftest.reuse.cfg", "OnlyOwnSignalled", "environment hazard: the pid is looked up again at stop(), a reused pid is signalled"),
         ("Launcher.selftest.leak.cfg", "NoLeakOnFailedStart", "start() of several nodes: a failure of a later node leaves the earlier ones running and unknown to the caller"),
     ]:
-        wd = tlc.prepare_workdir(SPEC, "xlself")
-        res = tlc.run_tlc(wd, "MC_Launcher", c, timeout=120, allow_violation=True, workers=1)
+        res = _tlc(ctx, "MC_Launcher", c)
         if res.invariant_violated != inv:
             raise tlc.MachineryError("self-test failed: %s no longer violates %s" % (c, inv))
         out.extra.setdefault("model_selftests", []).append("%s violates %s in the model, as expected: %s" % (c, inv, text))
@@ -898,14 +1010,14 @@ def run_process_part(ctx, out):
     stats["l1"] = {}
     stats["l1_new"] = {}
     stats["unexpected_exceptions"] = []
-    sim = proc_cases_from_tlc(ctx, out, "Launcher.sim.cfg", 250 if ctx.quick else 3000, 80)
-    sim += proc_cases_from_tlc(ctx, out, "Launcher.simok.cfg", 250 if ctx.quick else 3000, 80)
+    sim = proc_cases_from_tlc(ctx, out, "Launcher.sim.cfg")
+    sim += proc_cases_from_tlc(ctx, out, "Launcher.simok.cfg")
     out.note("leg S2C (process): %d TLC behaviours" % len(sim))
-    items = run_proc_cases(sim, out, "psim", stats)
+    items = run_proc_cases(sim, out, "psim", stats, pending)
     out.sample({"source": "tlc-simulate", "scn": sim[0]["scn"], "pid0": sim[0]["pid0"], "q0": sim[0]["q0"], "recorded_events": [[e["a"], e["n"], e["r"]] for e in items[0]["events"]]})
     rnd = random.Random(ctx.seed + 77)
     rc = [random_proc_case(rnd, k) for k in range(800 if ctx.quick else 12000)]
-    items = run_proc_cases(rc, out, "prnd", stats)
+    items = run_proc_cases(rc, out, "prnd", stats, pending)
     out.sample({"source": "random", "scn": rc[0]["scn"], "pid0": rc[0]["pid0"], "q0": rc[0]["q0"], "recorded_events": [[e["a"], e["n"], e["r"]] for e in items[0]["events"]][:60]})
     out.extra["process_runs"] = stats
     out.note(
@@ -931,11 +1043,14 @@ def run_process_part(ctx, out):
     m3 = copy.deepcopy(base)
     m3["id"] = "bind-proc"
     m3["events"][k]["st"]["proc"][m3["events"][k]["n"] - 1] = "running"
-    v = tracecheck.validate(SPEC, "TraceLauncher", "TraceLauncher.cfg", [m1, m2, m3], name="xlbind")
-    missed = [m for m in ("bind-term", "bind-drop", "bind-proc") if m not in v.l1 and m not in v.l2]
-    if missed or "bind-term" not in v.l1:
-        raise tlc.MachineryError("binding self-test failed: corrupted recordings accepted: %s (l1 %s)" % (missed, sorted(v.l1)))
-    out.extra["binding_selftest"] = "a recording with a second SIGTERM (L1 SignalDiscipline), one without its terminate event and one whose process ignores the signal are rejected by TLC"
+
+    def judge_binding(v):
+        missed = [m for m in ("bind-term", "bind-drop", "bind-proc") if m not in v.l1 and m not in v.l2]
+        if missed or "bind-term" not in v.l1:
+            raise tlc.MachineryError("binding self-test failed: corrupted recordings accepted: %s (l1 %s)" % (missed, sorted(v.l1)))
+        out.extra["binding_selftest"] = "a recording with a second SIGTERM (L1 SignalDiscipline), one without its terminate event and one whose process ignores the signal are rejected by TLC"
+
+    pending.append((lambda: tracecheck.validate(SPEC, "TraceLauncher", "TraceLauncher.cfg", [m1, m2, m3], name="xlbind"), judge_binding))
 
 
 # ===================================================================================================
@@ -1040,9 +1155,8 @@ def rest_cases_from_tlc(ctx, out):
     """every terminal state of RestLayer.quick.cfg = one (max_attempts, outcome per call) case with the model's verdict"""
     from ..tlaparse import parse_dump
 
-    wd = tlc.prepare_workdir(SPEC, "xlrest")
-    dump = os.path.join(wd, "states")
-    res = tlc.run_tlc(wd, "MC_RestLayer", "RestLayer.quick.cfg", workers=1, dump=dump, timeout=200, allow_violation=True)
+    res = _tlc(ctx, "MC_RestLayer", "RestLayer.quick.cfg")
+    dump = os.path.join(res.wd, "states")
     if not res.ok:
         raise tlc.MachineryError("model violates %s in RestLayer.quick.cfg: %s" % (res.invariant_violated, res.out[-1500:]))
     out.add_tlc(res)
@@ -1070,7 +1184,7 @@ def random_rest_case(rnd):
     return {"src": "random", "max": mx, "script": script, "hosts": rnd.randint(1, 5)}
 
 
-def run_rest_cases(cases, out, label, stats):
+def run_rest_cases(cases, out, label, stats, pending):
     items, index = [], {}
     for ci, case in enumerate(cases):
         item, anomalies = execute_rest(case)
@@ -1088,7 +1202,11 @@ def run_rest_cases(cases, out, label, stats):
         if case.get("model"):
             stats["s2c"] += 1
             stats["s2c_same"] += case["model"] == {"res": fin["res"], "calls": fin["calls"], "sleeps": fin["sleeps"]}
-    verdicts = tracecheck.validate(SPEC, "TraceRestLayer", "TraceRestLayer.cfg", items, name="xlresttrace", chunk=3000, timeout=600)
+    pending.append((lambda: tracecheck.validate(SPEC, "TraceRestLayer", "TraceRestLayer.cfg", items, name="xlresttrace", chunk=3000, timeout=600), lambda verdicts: _judge_rest(out, stats, items, index, verdicts, label)))
+    return items
+
+
+def _judge_rest(out, stats, items, index, verdicts, label):
     out.states += verdicts.n_events
     out.transitions += verdicts.n_events
     out.traces_validated += len(items) - len(set(verdicts.l2) | {tid for tid, fails in verdicts.l1.items() if any(c not in PINNED for _, cl in fails for c in cl)})
@@ -1102,16 +1220,14 @@ def run_rest_cases(cases, out, label, stats):
         ln = lines[0]
         what = {k: item["events"][ln - 1][k] for k in ("a", "r")} if 1 <= ln <= len(item["events"]) else "end of run"
         out.drift.append("run %s: event %d (%s) is not a step of RestLayer.tla (code as it is); case %s" % (tid, ln, what, {k: case[k] for k in ("max", "script")}))
-    return items
 
 
-def run_rest_part(ctx, out):
+def run_rest_part(ctx, out, pending):
     todo = [("RestLayer.exact.cfg", None), ("RestLayer.selftest.cfg", "AtMostMax")]
     if not ctx.quick:
         todo.append(("RestLayer.thorough.cfg", None))
     for c, expect in todo:
-        wd = tlc.prepare_workdir(SPEC, "xlrestmc")
-        res = tlc.run_tlc(wd, "MC_RestLayer", c, timeout=300, allow_violation=True, workers=2)
+        res = _tlc(ctx, "MC_RestLayer", c)
         if expect is None:
             out.add_tlc(res)
             if not res.ok:
@@ -1123,11 +1239,11 @@ def run_rest_part(ctx, out):
             out.extra.setdefault("model_selftests", []).append("%s violates %s in the model, as expected: ExactAttempts=FALSE, `while attempt <= max_attempts` counted from 0 makes max_attempts + 1 calls" % (c, expect))
     stats = {"runs": 0, "res": {}, "max_calls": 0, "default_max_attempts": 0, "s2c": 0, "s2c_same": 0, "l1": {}, "l1_new": {}}
     cases = rest_cases_from_tlc(ctx, out)
-    items = run_rest_cases(cases, out, "rdump", stats)
+    items = run_rest_cases(cases, out, "rdump", stats, pending)
     out.sample({"source": "tlc-dump", "max_attempts": cases[-1]["max"], "script": cases[-1]["script"], "recorded": items[-1]["events"][-1]["st"]})
     rnd = random.Random(ctx.seed + 123)
     rc = [random_rest_case(rnd) for _ in range(400 if ctx.quick else 6000)]
-    run_rest_cases(rc, out, "rrnd", stats)
+    run_rest_cases(rc, out, "rrnd", stats, pending)
     out.extra["rest_runs"] = stats
     out.note("leg S2C/C2S (rest): %d runs (%d terminal states of the model, all with the model's result/calls/sleeps: %d), results %s, up to %d calls, %d with the default max_attempts" % (stats["runs"], stats["s2c"], stats["s2c_same"], stats["res"], stats["max_calls"], stats["default_max_attempts"]))
     if stats["s2c_same"] != stats["s2c"]:
@@ -1372,11 +1488,9 @@ def execute_docker(case):
     return {"scn": dict(scn), "init": init, "events": events}, {"anomalies": anomalies, "skipped": world["skipped"], "final": st}
 
 
-def docker_cases_from_tlc(ctx, out, cfg, num, depth):
-    wd = tlc.prepare_workdir(SPEC, "xldsim")
-    simdir = os.path.join(wd, "sim")
-    os.makedirs(simdir)
-    res = tlc.run_tlc(wd, "MC_DockerLaunch", cfg, workers=1, simulate={"num": num, "file": os.path.join(simdir, "b")}, depth=depth, seed=ctx.seed + 9, timeout=300)
+def docker_cases_from_tlc(ctx, out, cfg):
+    res = _tlc(ctx, "MC_DockerLaunch", cfg)
+    simdir = os.path.join(res.wd, "sim")
     if not res.ok:
         raise tlc.MachineryError("simulation reported a model violation: %s" % res.out[-2000:])
     out.add_tlc(res)
@@ -1411,7 +1525,7 @@ def random_docker_case(rnd):
 DOCKER_KEYS = ("scn", "sched", "cmd", "seed", "p_env", "p_fail", "w_healthy")
 
 
-def run_docker_cases(cases, out, label, stats):
+def run_docker_cases(cases, out, label, stats, pending):
     items, index = [], {}
     for ci, case in enumerate(cases):
         try:
@@ -1435,7 +1549,11 @@ def run_docker_cases(cases, out, label, stats):
             stats["s2c_complete"] += 1
             mine = [[e["a"], e["n"], e["r"]] for e in evs if e["a"] not in DOCKER_ENV]
             stats["s2c_followed"] += mine == case["model_events"] and info["skipped"] == 0
-    verdicts = tracecheck.validate(SPEC, "TraceDockerLaunch", "TraceDockerLaunch.cfg", items, name="xldtrace", chunk=1500, timeout=600)
+    pending.append((lambda: tracecheck.validate(SPEC, "TraceDockerLaunch", "TraceDockerLaunch.cfg", items, name="xldtrace", chunk=1500, timeout=600), lambda verdicts: _judge_docker(out, stats, items, index, verdicts, label)))
+    return items
+
+
+def _judge_docker(out, stats, items, index, verdicts, label):
     out.states += verdicts.n_events
     out.transitions += verdicts.n_events
     out.traces_validated += len(items) - len(set(verdicts.l2) | {tid for tid, fails in verdicts.l1.items() if any(c not in PINNED for _, cl in fails for c in cl)})
@@ -1448,18 +1566,16 @@ def run_docker_cases(cases, out, label, stats):
         ln = lines[0]
         what = {k: item["events"][ln - 1][k] for k in ("a", "n", "r")} if 1 <= ln <= len(item["events"]) else ("initial state" if ln == 0 else "end of run")
         out.drift.append("run %s: event %d (%s) is not a step of DockerLaunch.tla (code as it is); case %s" % (tid, ln, what, {k: case.get(k) for k in ("scn", "seed", "cmd")}))
-    return items
 
 
-def run_docker_part(ctx, out):
+def run_docker_part(ctx, out, pending):
     todo = [("DockerLaunch.quick.cfg" if ctx.quick else "DockerLaunch.thorough.cfg", None), ("DockerLaunch.repaired.cfg", None), ("DockerLaunch.selftest.down.cfg", "DownChecked"), ("DockerLaunch.selftest.leak.cfg", "NoLeakOnFailedStart")]
     texts = {
         "DownChecked": "CheckDown=FALSE: the exit code of `docker-compose down` is dropped, a container that could not be removed goes unnoticed",
         "NoLeakOnFailedStart": "a container that was brought up but never becomes healthy (or a later node that fails) is left running when start() raises",
     }
     for c, expect in todo:
-        wd = tlc.prepare_workdir(SPEC, "xldmc")
-        res = tlc.run_tlc(wd, "MC_DockerLaunch", c, timeout=300, allow_violation=True, workers=2)
+        res = _tlc(ctx, "MC_DockerLaunch", c)
         if expect is None:
             out.add_tlc(res)
             if not res.ok:
@@ -1470,13 +1586,13 @@ def run_docker_part(ctx, out):
         else:
             out.extra.setdefault("model_selftests", []).append("%s violates %s in the model, as expected: %s" % (c, expect, texts[expect]))
     stats = {"runs": 0, "down_failed": 0, "events_max": 0, "s2c_complete": 0, "s2c_followed": 0, "l1": {}, "l1_new": {}}
-    sim = docker_cases_from_tlc(ctx, out, "DockerLaunch.sim.cfg", 100 if ctx.quick else 1500, 70)
-    sim += docker_cases_from_tlc(ctx, out, "DockerLaunch.simok.cfg", 100 if ctx.quick else 1500, 70)
-    items = run_docker_cases(sim, out, "dsim", stats)
+    sim = docker_cases_from_tlc(ctx, out, "DockerLaunch.sim.cfg")
+    sim += docker_cases_from_tlc(ctx, out, "DockerLaunch.simok.cfg")
+    items = run_docker_cases(sim, out, "dsim", stats, pending)
     out.sample({"source": "tlc-simulate (docker)", "scn": sim[0]["scn"], "recorded_events": [[e["a"], e["n"], e["r"]] for e in items[0]["events"]]})
     rnd = random.Random(ctx.seed + 211)
     rc = [random_docker_case(rnd) for _ in range(200 if ctx.quick else 4000)]
-    run_docker_cases(rc, out, "drnd", stats)
+    run_docker_cases(rc, out, "drnd", stats, pending)
     out.extra["docker_runs"] = stats
     out.note("leg S2C/C2S (docker): %d runs, start results %s, compose down failed in %d, longest run %d events; S2C: %d/%d complete TLC behaviours reproduced event by event" % (stats["runs"], {k[6:]: v for k, v in stats.items() if k.startswith("start_")}, stats["down_failed"], stats["events_max"], stats["s2c_followed"], stats["s2c_complete"]))
     for key in ("start_ok", "start_timeout", "start_rc", "down_failed", "s2c_followed"):
@@ -1498,11 +1614,17 @@ def run(ctx, out):
         "telemetry: real Telemetry and the real devices built by _start_node (only the internal ones DiskIo, IndexSize, StartupTime are enabled) plus one recording device at the end of the list",
         "one start() followed by at most one stop() per launcher; a second stop() of the same nodes is not modelled",
     ]
-    run_process_part(ctx, out)
-    run_rest_part(ctx, out)
-    run_docker_part(ctx, out)
+    _prefetch(ctx)
+    pending = []
+    run_process_part(ctx, out, pending)
+    run_rest_part(ctx, out, pending)
+    run_docker_part(ctx, out, pending)
+    _validate_pending(pending)
     for c, rec in sorted(out.extra.get("pinned_behaviour_observed", {}).items()):
         rec.pop("size", None)
         out.note("pinned behaviour of /repo (strong clause %s fails in %d runs; model switch %s = FALSE): %s; smallest example %s" % (c, rec["runs"], rec["switch"], rec["what"], str(rec["example"])[:400]))
+    if out.vacuous:
+        out.note("VACUOUS (kinds of runs this seed did not produce): %s" % out.vacuous)
+    out.drift.sort(key=lambda d: 0 if "seems to have been repaired" in d else 1)
     if out.drift:
         out.note("MODEL-DRIFT in %d places, first: %s" % (len(out.drift), out.drift[0][:600]))
